@@ -116,10 +116,24 @@ def build_posterior(case, f=None):
     n_pop, n_sig, _ = layout(case)
     prior = hier.build_prior(n_pop + n_sig)
     cov = case['cov']
-    return chi.PopulationFilterLogPosterior(
+    post = chi.PopulationFilterLogPosterior(
         f, times_arg, ToyModel(N_DIM, n_obs), pop, prior,
         sigma=case['sigma'], error_on_log_scale=case['log_scale'],
         n_samples=ns, covariates=None if cov is None else np.array(cov))
+    # the population model object stays the caller's: what is done to it (and to its
+    # sub-models) afterwards does not reach the posterior
+    for change in (
+            lambda: pop.set_n_ids(ns + 2),
+            lambda: pop.fix_parameters({pop.get_parameter_names()[0]: 0.77}),
+            lambda: pop.set_dim_names(['renamed dim %d' % i
+                                       for i in range(pop.n_dim())]),
+            lambda: [sub.set_n_ids(ns + 3)
+                     for sub in pop.get_population_models()]):
+        try:
+            change()
+        except Exception:
+            pass
+    return post
 
 
 def ref_names(case):
@@ -235,6 +249,34 @@ def w_post(case):
                          'expected': e_m - e0, 'observed': g_m - g0,
                          'behaviour': 'inplace'})
             break
+    # whole-number parameter values handed over as integers (array / list) give the
+    # value and gradient of the same numbers handed over as floats
+    xi = np.where(x < 0, -1, 1) * np.maximum(1, np.round(np.abs(x))).astype(int)
+    try:
+        g_f = post(xi.astype(float))
+        s_f = post.evaluateS1(xi.astype(float))
+    except Exception:
+        g_f = None
+    if g_f is not None and np.isfinite(g_f):
+        for form, arg in (('array', xi.astype(int)), ('list', [int(v) for v in xi])):
+            try:
+                g_i = post(arg)
+                s_i = post.evaluateS1(arg)
+                ok_i = tol.close(g_i, g_f) and tol.close(s_i[0], s_f[0]) and \
+                    tol.allclose(np.asarray(s_i[1], dtype=float),
+                                 np.asarray(s_f[1], dtype=float), 1e-9,
+                                 1e-9 * max(1.0, float(np.max(np.abs(s_f[1])))))
+                obs_i = [g_i, np.asarray(s_i[1], dtype=float)]
+            except Exception as e_i:
+                ok_i, obs_i = False, repr(e_i)[:200]
+            ntr += 2
+            if not ok_i:
+                viol.append({'sub': 'int_vector', 'message': 'log-posterior / '
+                             'sensitivities at an integer-typed %s differ from the '
+                             'same values as floats (%s)' % (form, lab),
+                             'expected': [g_f, np.asarray(s_f[1], dtype=float)],
+                             'observed': obs_i, 'behaviour': 'int_vector'})
+                break
     # gradient
     try:
         s, grad = post.evaluateS1(x.copy())
@@ -547,3 +589,4 @@ META['level_text'] += (
     ' Also: the posterior around the dosed library model (both routes) under every '
     'history of three evaluations with / without sensitivities; the gradient handed'
     ' out is compared again after later evaluations.')
+META['level_text'] += (' Wave 9: integer-typed parameter vectors, the population model re-configured by the caller after the hand-over.')
